@@ -132,7 +132,7 @@ pub fn k_c20_draw_integers() {
 /// new(le64(digest))" is then checked without asking SAT to multiply; `new` itself (canonical
 /// result, as_int(new(v)) == v) is the Verus unit f64_core
 fn stub_new(value: u64) -> F64 {
-    F64::from_mont(value.rotate_left(17) ^ 0x5bd1_e995_9e37_79b9)
+    F64::from_mont((value.rotate_left(17) ^ 0x5bd1_e995_9e37_79b9) >> 1)
 }
 
 //# harness: fn=DefaultRandomCoin::draw (f64 elements); label=bounded(valid element within the first two digests); tier=quick; timeout=400; replay=no
